@@ -84,7 +84,8 @@ impl Command for ResCmd {
                 args: c.arguments.clone(),
                 line: c.line,
                 out: c.output_variable.clone(),
-            })
+            });
+            note_invocation(h, c.variables, &c.env.halt);
         });
         let r = C3S.with(|s| {
             let mut s = s.borrow_mut();
@@ -127,6 +128,10 @@ impl Command for OnErrorCmd {
         Box::new(self.clone())
     }
     fn run(&self, c: CommandInvocationContext) -> CommandResult {
+        with_hz(|h| {
+            h.trace.push(Event { cmd: "on_error".into(), args: c.arguments.clone(), line: c.line, out: None });
+            note_invocation(h, c.variables, &c.env.halt);
+        });
         let a = C3S.with(|s| {
             let mut s = s.borrow_mut();
             let i = s.on_error_calls.len();
@@ -239,6 +244,17 @@ fn gen_program(t: &mut Tape, st: &mut Stats, max_lines: usize) -> Vec<Line> {
         lines.push(Line { ins, known: true });
     }
     lines
+}
+
+/// A rendered program over the scripted command (for C13): returns the text and whether it defines on_error use.
+pub fn program_text(t: &mut Tape, st: &mut Stats, max_lines: usize) -> String {
+    let lines = gen_program(t, st, max_lines);
+    let mut text = String::new();
+    for l in &lines {
+        text.push_str(&render_canonical(&l.ins));
+        text.push('\n');
+    }
+    text
 }
 
 // ---------------------------------------------------------------------------------------------
@@ -520,7 +536,7 @@ fn case_with(t: &mut Tape, st: &mut Stats, max_lines: usize) -> Verdict {
     if let Some(p) = &path {
         let _ = std::fs::remove_file(p);
     }
-    let trace = with_hz(|h| h.trace.clone());
+    let trace: Vec<Event> = with_hz(|h| h.trace.iter().filter(|e| e.cmd == "res").cloned().collect());
     let oe_calls = C3S.with(|s| s.borrow().on_error_calls.clone());
     let detail = |what: &str, extra: serde_json::Value| {
         json!({
